@@ -11,6 +11,7 @@ import TraitsVerif.Model.DslGrammar
 import TraitsVerif.Model.DslDenote
 import TraitsVerif.Generated.Grammar
 import TraitsVerif.Lemmas.DslLex
+import TraitsVerif.Lemmas.DslGrammar
 import TraitsVerif.Lemmas.DslParse
 import TraitsVerif.Lemmas.DslCompile
 namespace TraitsVerif.Props.C15
@@ -26,6 +27,25 @@ theorem C15_grammar_is_modelled :
     Generated.grammarRules = grammar ∧ Generated.grammarTerminals = grammarTerminals ∧
     Generated.grammarImports = grammarImports ∧ Generated.grammarIgnore = grammarIgnore := by
   decide
+
+/-- The derivation trees of the model (`Cst` with a `shape`) are exactly the
+derivations of `start` in the grammar data read from the file: a token string
+is derived by the rules of `_dsl_grammar.lark` iff it is the token string of a tree. -/
+theorem C15_ast_iff_derivation (ts : List Tok) :
+    Gen Generated.grammarRules "start" ts ↔ ∃ c, (shape c).isSome = true ∧ toks c = ts := by
+  rw [C15_grammar_is_modelled.1]
+  exact ⟨shape_of_gen, fun ⟨c, hc, e⟩ => e ▸ gen_of_shape c hc⟩
+
+/-- The model's parser accepts exactly the token language of the grammar file. -/
+theorem C15_parser_accepts_grammar_language (ts : List Tok) :
+    (∃ c, parseToks ts = some c) ↔ Gen Generated.grammarRules "start" ts := by
+  rw [C15_ast_iff_derivation]
+  constructor
+  · rintro ⟨c, h⟩
+    obtain ⟨e, hs⟩ := parseToks_sound ts c h
+    exact ⟨c, hs, e⟩
+  · rintro ⟨c, hs, rfl⟩
+    exact ⟨c, parseToks_toks c hs⟩
 
 /-! ## acceptance: exactly the renderings of derivation trees -/
 
